@@ -15,6 +15,7 @@ A device lives in virtual time (`vlib.sched.Scheduler`): blocking reads are sche
       'unsolicited': [[1.5, 'junk\n'], ...],   # bytes the device emits by itself, seconds after the connect
       'close': {'send': 3, 'phase': 'before' | 'after_cmd' | 'mid_reply' | 'after_reply'} | {'at': 2.5} | None,
                                           # the device closes the connection (counts sends over all connections)
+      'close2': {'at': 1.0},             # the device closes the SECOND connection that long after it was made
       'refuse': [1, 2],                  # connect attempts (0-based, over the whole run) that are refused
     }
 
@@ -130,6 +131,8 @@ class Device:
             cl = self.script.get('close')
             if cl and 'at' in cl:
                 self._eof(ch, now + cl['at'])
+        elif cid == 1 and self.script.get('close2'):     # a second timed close, relative to the second connect
+            self._eof(ch, now + self.script['close2']['at'])
         return ch
 
     def _emit(self, ch, t, data, tag):
